@@ -68,8 +68,14 @@ try:
     old = {}
     if os.path.exists(os.path.join(dst, "meta.json")):
         old = json.load(open(os.path.join(dst, "meta.json")))
-        old.get("checks", {}).update(meta["checks"]); meta["checks"] = old["checks"]
+        hist = old.get("history", [])
+        if not hist:   # runs made before the history field existed
+            hist = [{"check": c, "exit": r["exit"], "at": "earlier"} for c, r in old.get("checks", {}).items()]
+        old.get("checks", {}).update(meta["checks"]); cur = meta["checks"]; meta["checks"] = old["checks"]
+        meta["history"] = hist + [{"check": c, "exit": r["exit"], "at": time.strftime("%Y-%m-%dT%H:%M:%SZ", time.gmtime())} for c, r in cur.items()]
         meta["ran"] = old.get("ran", []) + meta["ran"]
+    else:
+        meta["history"] = [{"check": c, "exit": r["exit"], "at": time.strftime("%Y-%m-%dT%H:%M:%SZ", time.gmtime())} for c, r in meta["checks"].items()]
     json.dump(meta, open(os.path.join(dst, "meta.json"), "w"), indent=1)
 finally:
     subprocess.run(["git", "-C", "/repo", "worktree", "remove", "--force", wt], capture_output=True)
